@@ -51,7 +51,10 @@ def angdiff(a, b):
 def run_case(case):
     import numpy as np
     from bldfm.config_parser import latlon_to_xy, parse_config_dict
-    from bldfm.plotting._geo import xy_to_latlon
+    from bldfm.plotting._geo import xy_to_latlon as _x2l
+    from vlib import purity
+
+    xy_to_latlon = purity.guarded(_x2l, "xy_to_latlon")
     from vlib import gen
 
     rng = gen.rng_for(case["seed"], "C17", case["idx"])
